@@ -42,8 +42,8 @@ Proof.
   intros H. destruct o as [sid seq g|sid seq|sid|sid]; cbn [sstep sop_stream fst snd] in *.
   - split; [reflexivity|]. unfold st_store, stream_of. rewrite H.
     now rewrite !lookup_insert_same.
-  - unfold st_remove. rewrite H. destruct (lookup sid st2) as [m|]; cbn [fst snd]; [|now split].
-    destruct (lookup seq m); cbn [fst snd]; [|now split].
+  - unfold st_remove. rewrite H. destruct (lookup sid st2) as [m|] eqn:E2; cbn [fst snd]; [|split; [reflexivity|congruence]].
+    destruct (lookup seq m); cbn [fst snd]; [|split; [reflexivity|congruence]].
     split; [reflexivity|]. now rewrite !lookup_insert_same.
   - unfold st_list. rewrite H. now split.
   - split; [reflexivity|]. destruct v; cbn [st_clear]; [reflexivity|].
